@@ -725,6 +725,8 @@ def evaluate_smt_formula(
             )
         except DomainError:
             return Some(ThreeValuedTruth.false())
+        except ZeroDivisionError:
+            return fallback(None)
 
     def fallback(_) -> Maybe[ThreeValuedTruth]:
         return Some(
@@ -743,9 +745,13 @@ def evaluate_smt_formula(
             )
         )
 
+    try:
+        translation_result = evaluate_z3_expression(z3_formula)
+    except ZeroDivisionError:
+        return fallback(None)
+
     return (
-        evaluate_z3_expression(z3_formula)
-        .map(process_translation)
+        translation_result.map(process_translation)
         .lash(compose(fallback, Success))
         .unwrap()
     )
